@@ -41,7 +41,9 @@ def required_cells(tier):
     return ['resolve:found-module', 'resolve:found-package', 'resolve:absent', 'resolve:broken-chain',
             'resolve:module-and-package', 'roundtrip', 'split', 'import', 'resolve:main-file',
             'import:failing-leaves-syspath', 'resolve:module-beside-plain-directory', 'import:root-already-on-syspath', 'resolve:extension-module', 'installation:file', 'installation:roundtrip', 'history:resolve-after-deleted', 'history:resolve-after-created', 'history:init-removed', 'history:init-added', 'path-to-name:every-file', 'search-path-spelling:trailing-sep', 'search-path-spelling:symlink',
-            'search-path-spelling:dot']
+            'search-path-spelling:dot', 'search-path-shape:empty-list:nothing', 'search-path-shape:empty-tuple:nothing',
+            'search-path-shape:nothing-there:nothing', 'search-path-shape:second-entry:found',
+            'search-path-shape:first-entry:found', 'search-path-shape:tuple:found']
 
 
 def build(rng, root, uniq):
@@ -186,7 +188,36 @@ def check_tree(ctx, idx, seed):
         link = root + '_link'
         os.symlink(root, link)
         listing = sorted(os.path.relpath(os.path.join(dp, f), root) for dp, _, fn in os.walk(root) for f in fn)
-        for name in all_names(root):
+        names = all_names(root)
+        # ---- shapes of the search path itself: empty (list / tuple), a directory that holds nothing, several entries
+        empty_dir = root + '_empty'
+        os.mkdir(empty_dir)
+        for name in rng.sample(names, min(4, len(names))) + ['os', 'json', 'xdoctest']:
+            exp, cls = oracle(root, name)
+            for shape, sps, want in [('empty-list', [], None), ('empty-tuple', (), None), ('nothing-there', [empty_dir], None),
+                                     ('second-entry', [empty_dir, root], exp), ('first-entry', [root, empty_dir], exp),
+                                     ('tuple', (root,), exp)]:
+                ctx.evaluation()
+                case = {'index': idx, 'case_seed': seed, 'name': name, 'search_path_shape': shape}
+                for hide_main in (False, True):
+                    w = want
+                    if w and hide_main and os.path.basename(w) == '__main__.py':
+                        continue
+                    try:
+                        got = util_import.modname_to_modpath(name, hide_init=False, hide_main=hide_main, sys_path=sps)
+                    except Exception as ex:
+                        ctx.violation('resolve-raised', 'modname_to_modpath(%r, sys_path=%s) raised %r; tree %r' % (
+                            name, shape, ex, listing), case)
+                        continue
+                    ctx.event('resolutions_compared')
+                    if (got and os.path.realpath(got)) != (w and os.path.realpath(w)):
+                        ctx.violation('resolve', 'modname_to_modpath(%r, hide_main=%r, sys_path=<%s>) -> %r but the import system, '
+                                      'given that search path, would load %r; tree %r' % (
+                                          name, hide_main, shape, got, w and os.path.relpath(w, root), listing), case,
+                                      observed=got, expected=w, source_beside_extension=source_beside_extension(got, w))
+                    else:
+                        ctx.cell('search-path-shape:' + shape + (':found' if w else ':nothing'))
+        for name in names:
             ctx.evaluation()
             case = {'index': idx, 'case_seed': seed, 'name': name}
             exp, cls = oracle(root, name)
@@ -368,6 +399,7 @@ def check_tree(ctx, idx, seed):
             ctx.sample({'tree': listing, 'names_resolved': all_names(root)[:12]}, limit=2)
     finally:
         shutil.rmtree(root, ignore_errors=True)
+        shutil.rmtree(root + '_empty', ignore_errors=True)
         try:
             os.unlink(root + '_link')
         except OSError:
